@@ -128,7 +128,11 @@ def gen_chain(rng):
             'first': {'cc': rng.random() < 0.25, 'cn': rng.random() < 0.25,
                       'issuer': rng.choice(['proc', 'on_update'])},
             'frames_after': rng.randint(1, 3),
-            'own_loop': rng.random() < 0.25}
+            'own_loop': rng.random() < 0.25,
+            # afterwards the last world switches back to a world of the
+            # chain (one whose entry was cut short by its own request)
+            'return_to': rng.randint(1, depth) if rng.random() < 0.5
+            else None}
 
 
 def run_chain(case):
@@ -231,11 +235,28 @@ def run_chain(case):
                   is_current=loop.current_world is w,
                   handle_ok=loop.current_world_handle
                   is handles[w.handle_index])
+            if st.get('returned') and w.handle_index == case['return_to']:
+                st['frames_back'] = st.get('frames_back', 0) + 1
+                if st['frames_back'] >= 2:
+                    raise desper.Quit()
+                return
             if st['fired_first'] and st['link'] >= len(links) \
                     and w.handle_index == nh - 1:
                 st['frames_after'] += 1
                 if st['frames_after'] >= case['frames_after']:
-                    raise desper.Quit()
+                    k = case.get('return_to')
+                    if k is None or st.get('returned'):
+                        raise desper.Quit()
+                    st['returned'] = True
+                    back = handles[k]
+                    inst = back() if back.cached else None
+                    if inst is not None:
+                        # an event for the world that was left: it holds it
+                        inst.dispatch('probe', 77)
+                    entry('return_request', w.uid, to_handle=k,
+                          cached_uid=getattr(inst, 'uid', None))
+                    kwargs = {'from_world': w} if case['own_loop'] else {}
+                    desper.switch(back, **kwargs)
             elif st['fired_first']:
                 # a world of the chain was processed although its entry
                 # callbacks had asked to go on: judged from the log
@@ -280,6 +301,40 @@ def run_chain(case):
                 'entry callback of the world being entered ended the loop: '
                 + outcome, 'start() returns after Quit', outcome, tail=tail)
         return res
+    # ---- the return to a world of the chain
+    ret = next((e for e in log if e['kind'] == 'return_request'), None)
+    if ret is not None:
+        after = log[ret['seq'] + 1:]
+        back_frames = [e for e in after if e['kind'] == 'process_start']
+        res.stats['returns_to_a_world_of_the_chain'] += 1
+        if not back_frames or any(
+                instances[e['w']].handle_index != ret['to_handle']
+                or not e['is_current'] for e in back_frames):
+            res.div(ret['seq'], 'chain-return-wrong-world', 'after switching '
+                    'back, the iterations must process the target handle',
+                    ret['to_handle'], [_short(e) for e in back_frames[:3]],
+                    tail=tail)
+            return res
+        Wb = back_frames[0]['w']
+        ins = [e for e in after if e['kind'] == 'on_switch_in'
+               and e['w'] == Wb and e['frm'] == ret['w']]
+        if len(ins) != 1 or ins[0]['seq'] > back_frames[0]['seq']:
+            res.div(ret['seq'], 'chain-return-switch-in', 'a world whose '
+                    'earlier entry was cut short by its own switch request '
+                    'must, when it is entered again, receive on_switch_in '
+                    'once before its first frame', 1,
+                    [_short(e) for e in ins], tail=tail)
+            return res
+        if ret['cached_uid'] == Wb:
+            probes = [e for e in after if e['kind'] == 'probe'
+                      and e['w'] == Wb and e.get('token') == 77]
+            if len(probes) != 1:
+                res.div(ret['seq'], 'chain-return-held-events', 'the event '
+                        'the world was sent while it was left must be '
+                        'delivered once when it is entered again', 1,
+                        len(probes), tail=tail)
+                return res
+        log = log[:ret['seq']]
     requests = [e for e in log if e['kind'] == 'request']
     if len(requests) != len(links) + 1:
         # a link did not fire (e.g. its world instance was replaced by a
